@@ -180,7 +180,7 @@ def _classes():
     return _CLS
 
 
-def make_io(script, interactive=True, pending=None):
+def make_io(script, interactive=True, pending=None, via="io"):
     """IO over counting streams.  Read budget len(script)+2; write budget generous (a loop that never reads)."""
     c = _classes()
     text = "".join(l + "\n" for l in script) if pending is None else pending
@@ -190,14 +190,23 @@ def make_io(script, interactive=True, pending=None):
     out = c["CountingOutput"](16 * (k + 4))
     err = c["CountingOutput"](16 * (k + 4))
     io = c["IO"](c["Input"](inp), c["Output"](out, fmt), c["Output"](err, fmt))
-    if not interactive:
+    if via == "section-before":
+        # the section is taken first, interaction is switched off on the I/O afterwards (an application that opens its
+        # sections before it handles --no-interaction): the section is the same console, it must not interact either
+        sec = io.section()
+        if not interactive:
+            io.set_interactive(False)
+        io = sec
+    elif not interactive:
         io.set_interactive(False)
+        if via == "section-after":
+            io = io.section()
     return io, inp, out, err
 
 
-def ask(q, script, interactive=True, pending=None):
+def ask(q, script, interactive=True, pending=None, via="io"):
     """-> observation dict (JSON-able)"""
-    io, inp, out, err = make_io(script, interactive, pending)
+    io, inp, out, err = make_io(script, interactive, pending, via)
     try:
         val = q.ask(io)
         outcome, detail = "return", val
@@ -640,7 +649,8 @@ def noninteractive_specs():
     for p in CONFIRM_PATTERNS:
         for d in (True, False):
             out.append({"kind": "nonint", "q": "confirm", "pattern": p, "default": d})
-    return out
+    # the same on a section of the I/O, taken before / after interaction was switched off
+    return out + [dict(o, via=via) for via in ("section-before", "section-after") for o in out]
 
 
 def build_nonint(spec):
@@ -662,7 +672,7 @@ def build_nonint(spec):
 def nonint_case(spec):
     q = build_nonint(spec)
     # input is available ("x" would be an answer) but must not be touched
-    obs = ask(q, ["x", "y"], interactive=False)
+    obs = ask(q, ["x", "y"], interactive=False, via=spec.get("via", "io"))
     shown = {k: obs[k] for k in ("outcome", "detail", "reads", "err", "out")}
     if obs["outcome"] != "return":
         return report.viol("nonint:no-default:" + spec["q"], "non-interactive %s question did not return" % spec["q"], spec, spec["default"], shown)
